@@ -122,7 +122,11 @@ static void harness(void) {
 #endif
   ASSUME(!exhausted_);
   REACH(e.r == 2 && e.id == 700, "depth limit exceeded");
+#if LIM >= 2
   REACH(e.r == 1 && sx_n >= 5, "nested success within the limit");
+#else
+  REACH(e.r == 1, "success within the limit");
+#endif
   REACH(e.r == 0, "local failure");
   REACH(e.r == 3, "foreign exception unwinds the guards");
 #else
